@@ -131,14 +131,16 @@ def init (s : St) (src : String) : St :=
     d0 := .app "d0" [s1.geom, .inp src]
     e0 := .app "e0" ([s1.geom, .inp src, s1.att, s1.freq] ++ effAll s1 ++ (s1.dirsIn.getD []) ++ (s1.dirsOut.getD [])) }
 
-/-- `calculate_energy_exchange(par…, recalculate)`. -/
+/-- `calculate_energy_exchange(par…, recalculate)`: the histogram and the three parameters that
+    describe it are stored together; with a histogram present and no recalculation requested the
+    call changes nothing. -/
 def exchange (s : St) (par : String) (orderZero recalc : Bool) : St :=
-  let etc' :=
-    if s.etc.isNone || recalc then
+  if s.etc.isNone || recalc then
+    let etc' :=
       if orderZero then Term.app "etc0" [s.e0, s.d0, .inp par]
       else Term.app "etc" [s.e0, s.d0, s.geom, s.fft, s.p2o, s.visible, .inp par]
-    else s.etc
-  { s with etc := etc', c := .app "c" [.inp par], dt := .app "dt" [.inp par], dur := .app "dur" [.inp par] }
+    { s with etc := etc', c := .app "c" [.inp par], dt := .app "dt" [.inp par], dur := .app "dur" [.inp par] }
+  else s
 
 /-- `from_dict(to_dict())` / `from_read(write())`: every serialised attribute comes back;
     `_source` does not (known finding D8). -/
